@@ -15,10 +15,13 @@ def sh(cmd, cwd=None, env=None, timeout=5400):
 def main():
     prop, mdir = sys.argv[1], sys.argv[2].rstrip('/')
     checks = sys.argv[3:] or [prop]
-    dst = f"/verif/seeded/{prop}-{os.path.basename(mdir)}"
+    base = os.path.basename(mdir)
+    dst = f"/verif/seeded/{base}" if base.startswith(prop + "-") else f"/verif/seeded/{prop}-{base}"
+    checks_only = bool(os.environ.get("MUTANT_CHECKS_ONLY"))    # a change confirmed earlier: only run the checks again
     os.makedirs(dst, exist_ok=True)
-    for f in ("patch.diff", "demo.py", "meta.json"):
-        shutil.copy(os.path.join(mdir, f), os.path.join(dst, f))
+    if os.path.abspath(mdir) != os.path.abspath(dst):
+        for f in ("patch.diff", "demo.py", "meta.json"):
+            shutil.copy(os.path.join(mdir, f), os.path.join(dst, f))
     meta = json.load(open(os.path.join(dst, "meta.json")))
     tag = f"{prop}_{os.getpid()}"
     wt, vc = f"/tmp/iso_repo_{tag}", f"/tmp/iso_verif_{tag}"
@@ -26,9 +29,16 @@ def main():
     env = {"PYTHONPATH": f"{wt}/src", "PYTHONDONTWRITEBYTECODE": "1"}
     ran, results = {}, {}
     try:
-        rc0, _ = sh(f"/venv/bin/python {dst}/demo.py", cwd=wt, env=env)
-        rca, out = sh(f"git apply {dst}/patch.diff", cwd=wt)
-        ran["applies"] = rca == 0
+        if checks_only and meta.get("confirmation", {}).get("confirmed"):
+            ran = dict(meta["confirmation"])
+            rca, out = sh(f"git apply {dst}/patch.diff", cwd=wt)
+            ran["applies"] = rca == 0
+            ran["confirmed"] = bool(ran["confirmed"] and rca == 0)
+            rca = 1                      # skip the confirmation block below
+        else:
+            rc0, _ = sh(f"/venv/bin/python {dst}/demo.py", cwd=wt, env=env)
+            rca, out = sh(f"git apply {dst}/patch.diff", cwd=wt)
+            ran["applies"] = rca == 0
         if rca == 0:
             rct, outt = sh("/venv/bin/python -m pytest -q -p no:cacheprovider", cwd=wt, env=env)
             rc1, _ = sh(f"/venv/bin/python {dst}/demo.py", cwd=wt, env=env)
